@@ -1,7 +1,7 @@
 (* Entry points for the C16 correspondence: parse the same spec twice, compare the two objects with the model of __eq__.
    (The second parse reads the same spec: the ownership analysis of Properties/C16.v shows the first parse leaves it alone.) *)
 From Coq Require Import ZArith NArith List Bool String.
-From Valida Require Import Py Lang Defs Cond Dsl Path Cast Str SpecDefs RuleDefs Rule Spec SpecIO Eq Inst RunSpec.
+From Valida Require Import Py Lang Defs Cond Dsl Path Cast Str SpecDefs RuleDefs Rule Spec SpecIO Eq Inst RunSpec SchemaSpec.
 Import ListNotations.
 Local Open Scope string_scope.
 
@@ -40,3 +40,10 @@ Definition run_reparse_rule (spec : pyval) : res pyval :=
   let* re := rule_from_spec T X spec in let* r := mk_rule T (fst re) in
   let* re' := rule_from_spec T X spec in let* r' := mk_rule T (fst re') in
   Ok (VBool (rule_eqb T r' r (rx_cast_given (snd re')) (rx_cast_given (snd re)))).
+
+(* Schema.from_json_like(l) == Schema.from_json_like(l)  (rules parsed left to right, then sorted by path length), with the
+   path lengths of the sorted rules so that the ORDER the schema holds them in is compared too *)
+Definition run_reparse_schema (specs : list pyval) : res pyval :=
+  let* s := schema_of_specs specs in
+  let* s' := schema_of_specs specs in
+  Ok (VTuple [VBool (schema_objs_eqb s' s); VList (map (fun x => VInt (Z.of_nat (plen x))) s)]).
